@@ -57,12 +57,15 @@ CHECKS = {
     "C07": {
         "level": "model_checking",
         "engine": "E2",
-        "technique": "exhaustive enumeration of queue layouts on the real combine functions vs reference",
+        "technique": "exhaustive enumeration of queue layouts on the real combine functions vs reference; stateless model checking (pre-emption-bounded) of combine vs concurrent appends",
         "level_text": "Every queue layout of length <= 4 (quick) / 5 (thorough) over a 17-kind task alphabet (2 hooks x HookRun/EnableKubernetesBindings/no-metadata x context group shapes incl. repeated and interleaved groups x monitor ids) is loaded into a real TaskQueue; both the private combine function and its exported twin are called on the head and compared with a reference written from the statement on full context sequences, monitor ids and remaining queue content.",
-        "level_note": "Trusted: the reference in the harness. Bounded to the alphabet and length; concurrent appends during combination are explored by part b (scheduler) when present.",
+        "level_note": "Trusted: the reference in the harness. Part b: a thread appending 1-2 tasks while the real combine function runs on the instrumented queue, all interleavings within 2 (quick) / 3 (thorough) pre-emptions; every context must be either in the combined result or still queued, exactly once, in order. Retries of a combined task are covered by C04.",
         "rule": "all layouts (product enumeration) of tasks from the alphabet; non-trivial = something was merged; distinct = distinct (contexts, monitor ids, remaining queue) outcome",
         "parts": [
             part("c07a", "pkg/shell-operator", "TestVerifC07a", ["zz_verif_c07_test.go"], shards={"quick": 8, "thorough": 16}),
+            part("c07b", "pkg/shell-operator", "TestVerifC07b", ["zz_verif_c07_test.go"], shards={"quick": 4, "thorough": 8}, gomaxprocs=1,
+                 instrument={"files": [{"path": "pkg/task/queue/task_queue.go", "sync": True, "time": True, "conc": True, "touch": ["started"]},
+                                       {"path": "pkg/task/queue/queue_set.go", "sync": True, "time": True, "conc": True}]}),
         ],
     },
     "C15": {
